@@ -759,6 +759,47 @@ compareN(const Array<N, float>& a, const MN<N>& m, const std::string& where)
   return std::nullopt;
 }
 
+// ---- reference notions for the index range itself: any level empty?  hyper-rectangle?
+template <int N>
+static bool
+m_any_empty(const MN<N>& m)
+{
+  if (m.empty())
+    return true;
+  if constexpr (N > 1)
+    for (auto& k : m.v)
+      if (m_any_empty<N - 1>(k))
+        return true;
+  return false;
+}
+template <int N>
+static bool
+m_box(const MN<N>& m, std::vector<int>& box)
+{
+  if constexpr (N == 1)
+    {
+      box = { m.min, m.max() };
+      return true;
+    }
+  else
+    {
+      std::vector<int> first;
+      for (size_t i = 0; i < m.v.size(); ++i)
+        {
+          std::vector<int> b;
+          if (!m_box<N - 1>(m.v[i], b))
+            return false;
+          if (i == 0)
+            first = b;
+          else if (b != first)
+            return false;
+        }
+      box = { m.min, m.max() };
+      box.insert(box.end(), first.begin(), first.end());
+      return true;
+    }
+}
+
 template <int N>
 static std::optional<Fail>
 check_full(const Array<N, float>& a, const MN<N>& m, const char* which)
@@ -810,6 +851,43 @@ check_full(const Array<N, float>& a, const MN<N>& m, const char* which)
   IndexRange<N> r = a.get_index_range();
   if (r.size_all() != flat.size())
     return Fail{ "Array:get_index_range", which };
+  // the index range as an object of its own: regularity and size must reflect the contents however often and in whatever order
+  // they are asked for (the class caches its regularity), for the object, for copies of it, and for an array made from it
+  if (!m_any_empty<N>(m))
+    {
+      std::vector<int> box;
+      const bool reg_ref = m_box<N>(m, box);
+      IndexRange<N> q = a.get_index_range();
+      BasicCoordinate<N, int> qmn, qmx;
+      const bool g1 = q.get_regular_range(qmn, qmx);
+      const bool i1 = q.is_regular();
+      const bool i2 = q.is_regular();
+      const bool g2 = q.get_regular_range(qmn, qmx);
+      if (g1 != reg_ref || i1 != reg_ref || i2 != reg_ref || g2 != reg_ref)
+        return Fail{ "IndexRange:regularity-answer-changes-or-wrong",
+                     vf::fmt("%s: hyper-rectangle %d; get_regular_range %d, is_regular %d, is_regular again %d, get_regular_range again %d", which,
+                             reg_ref, g1, i1, i2, g2) };
+      if (reg_ref)
+        for (int d = 1; d <= N; ++d)
+          if (qmn[d] != box[static_cast<size_t>(2 * (d - 1))] || qmx[d] != box[static_cast<size_t>(2 * (d - 1) + 1)])
+            return Fail{ "IndexRange:get_regular_range-bounds", vf::fmt("%s: dimension %d [%d,%d]", which, d, qmn[d], qmx[d]) };
+      if (q.size_all() != flat.size())
+        return Fail{ "IndexRange:size_all-after-regularity-query",
+                     vf::fmt("%s: size_all %zu after asking for regularity, %zu elements (hyper-rectangle %d)", which, q.size_all(), flat.size(), reg_ref) };
+      const IndexRange<N> qc(q);
+      if (qc.size_all() != flat.size() || qc.is_regular() != reg_ref || !(qc == q))
+        return Fail{ "IndexRange:copy-after-regularity-query", vf::fmt("%s: copy has size_all %zu, %zu elements", which, qc.size_all(), flat.size()) };
+      if (flat.size() <= 4096)
+        {
+          // an array made from the queried range owns exactly that many elements (ASan watches the fill)
+          Array<N, float> fresh(qc);
+          fresh.fill(1.F);
+          if (fresh.size_all() != flat.size() || !(fresh.get_index_range() == q))
+            return Fail{ "IndexRange:array-from-queried-range", vf::fmt("%s: array has size_all %zu, %zu elements", which, fresh.size_all(), flat.size()) };
+          if (static_cast<size_t>(std::lround(static_cast<double>(fresh.sum()))) != flat.size())
+            return Fail{ "IndexRange:array-from-queried-range:sum", vf::fmt("%s: %g ones, %zu elements", which, static_cast<double>(fresh.sum()), flat.size()) };
+        }
+    }
   return std::nullopt;
 }
 
